@@ -11,6 +11,7 @@ from engine.util import (call_name, contains, enumerate_paths, fstring_holes, fs
                          single_def_value, in_body, inline_locals, inline_helper_call, normalise)
 from engine.cfg import stmt_of
 from engine.dataflow import assigned_value
+from engine.inline import inlined
 from . import c16 as _c16
 from . import _roles_util as _R
 
@@ -127,6 +128,17 @@ def _cnf(e, val, v, allowed=None):
         if conj:
             return [c for p in parts for c in p]
         return _cross(parts)
+    if isinstance(e, ast.Constant) and isinstance(e.value, bool):
+        return [] if e.value == val else [frozenset()]
+    if isinstance(e, ast.IfExp):
+        # a guard-return predicate spliced in as `False if t1 else False if t2 else <last test>`
+        T, A, B = e.test, e.body, e.orelse
+        for const, other, t_pol in ((A, B, True), (B, A, False)):
+            if isinstance(const, ast.Constant) and isinstance(const.value, bool):
+                if const.value == val:          # holds when the test selects the constant arm, or the other arm holds
+                    return _cross([_cnf(T, t_pol, v, allowed), _cnf(other, val, v, allowed)])
+                return _cnf(T, not t_pol, v, allowed) + _cnf(other, val, v, allowed)
+        return _cross([_cnf(T, False, v, allowed), _cnf(A, val, v, allowed)]) + _cross([_cnf(T, True, v, allowed), _cnf(B, val, v, allowed)])
     a = _atom(e, v, allowed)
     if a is None:
         return [frozenset({("?" + ast.unparse(e), val)})]
@@ -148,6 +160,8 @@ def r1_collapse_guard(ctx, rid):
     params = [p for p in f.params if p != f.self_name]
     ctx.require(params, f"{rid}: _finalize_var_def has no parameters")
     v = params[0]
+    f_orig = f
+    f = inlined(ctx, f_orig)             # predicate helpers holding the guard chain are spliced in; obligations name the original
     cfg = ctx.cfg(f)
     stores = []
     for s in cfg.stmts():
@@ -186,14 +200,14 @@ def r1_collapse_guard(ctx, rid):
             label = f"{req}: {norm(s)}"
             good = [c for c in clauses if keylit in c and c <= ({keylit} | beside)]
             if good:
-                ctx.ok(rid, f, s, f"the collapse `{norm(s)}` is reached only when {text}", facts, label=label)
+                ctx.ok(rid, f_orig, s, f"the collapse `{norm(s)}` is reached only when {text}", facts, label=label)
                 continue
             if unknown:
                 raise AnalysisError(f"{rid}: cannot decide guard `{req}` of `{norm(s)}`: unrecognised test(s) {[u[0][1:] for u in unknown]}")
             inverted = [c for c in clauses if (keylit[0], not keylit[1]) in c]
             why = (f"the dominating test is inverted (the store is reached when NOT: {text})" if inverted else
                    f"no dominating guard establishes that {text}")
-            ctx.violation(rid, f, s, f"`{norm(s)}` replaces a vector by its first element although {why}: with vectorize=True the per-node values "
+            ctx.violation(rid, f_orig, s, f"`{norm(s)}` replaces a vector by its first element although {why}: with vectorize=True the per-node values "
                                      f"of a merged variable would collapse to the first node's value", facts, label=label)
 
 
@@ -250,7 +264,7 @@ def _extent_source(e, var, ctx=None, f=None):
 
 def r2_append_ranges(ctx, rid):
     cls = ctx.repo.get_class(OG, "VectorizedOperatorGraph")
-    f = get_method(ctx, cls, "append_values")
+    f = inlined(ctx, get_method(ctx, cls, "append_values"))     # per-variable helpers spliced in (same qualname, same construct keys)
     cfg = ctx.cfg(f)
     rets = [s for s in cfg.stmts() if isinstance(s, ast.Return)]
     ctx.require(len(rets) == 1 and isinstance(rets[0].value, ast.Name), f"{rid}: append_values no longer returns one named dictionary")
@@ -398,7 +412,7 @@ def r2_append_ranges(ctx, rid):
 
     # ---- VectorizedNodeIR.extend ---------------------------------------------------------------------------------------
     ncls = ctx.repo.get_class(ND, "VectorizedNodeIR")
-    ext = get_method(ctx, ncls, "extend")
+    ext = inlined(ctx, get_method(ctx, ncls, "extend"))
     ecfg = ctx.cfg(ext)
     erets = [s for s in ecfg.stmts() if isinstance(s, ast.Return)]
     ctx.require(len(erets) == 1 and erets[0].value is not None, f"{rid}: VectorizedNodeIR.extend has no single return")
@@ -436,7 +450,7 @@ def r2_append_ranges(ctx, rid):
                                                               "(edge-node index ranges are computed from it)", label="length increment")
 
     # ---- cache_func -----------------------------------------------------------------------------------------------------
-    cf = ctx.repo.get_func(ND, "cache_func")
+    cf = inlined(ctx, ctx.repo.get_func(ND, "cache_func"))
     ccfg = ctx.cfg(cf)
     crets = [s for s in ccfg.stmts() if isinstance(s, ast.Return)]
     ctx.require(len(crets) == 1 and isinstance(crets[0].value, ast.Tuple) and len(crets[0].value.elts) == 3 and isinstance(crets[0].value.elts[2], ast.Name),
@@ -488,10 +502,13 @@ def r2_append_ranges(ctx, rid):
         else:
             raise AnalysisError(f"{rid}: unrecognised definition of the ranges in cache_func: {norm(d)}")
     # var_lengths = shape[0] if shape else 1
-    vl = get_method(ctx, cls, "var_lengths")
+    vl = inlined(ctx, get_method(ctx, cls, "var_lengths"))
     sts = [s for s in walk_shallow(vl.node) if isinstance(s, ast.Assign) and len(s.targets) == 1 and isinstance(s.targets[0], ast.Subscript)]
+    if not sts:
+        # the mapping built in one expression: return {(op, var): <length> for ...}
+        sts = [s for s in walk_shallow(vl.node) if isinstance(s, (ast.Return, ast.Assign)) and isinstance(s.value, ast.DictComp)]
     ctx.require(len(sts) == 1, f"{rid}: var_lengths has an unrecognised form")
-    val = inline_locals(ctx, vl, sts[0].value)
+    val = sts[0].value.value if isinstance(sts[0].value, ast.DictComp) else inline_locals(ctx, vl, sts[0].value)
 
     def shape_of(e):
         """X['shape'] -> dump of X"""
@@ -733,7 +750,7 @@ def r3_group_edges(ctx, rid):
         if c[0] == "attr":
             attr_ev = (s, c)
     if src_ev and attr_ev:
-        _lockstep(ctx, rid, f, attr_ev, src_ev, vname, "merge")
+        _lockstep(ctx, rid, f, attr_ev, src_ev, vname, "merge", pre=_prereplicated(ctx, f, aloop.iter.func.value))
     elif unknown:
         raise AnalysisError(f"{rid}: the merging branch of _group_edges grows lists in a form that is not recognised: {unknown}")
     else:
@@ -746,10 +763,10 @@ def r3_group_edges(ctx, rid):
 
     # ---------------- creating path ----------------
     cloops = attr_loops(create_region)
-    ctx.require(len(cloops) == 1, f"{rid}: expected one loop over the edge attributes on the creating path, found {len(cloops)}")
-    cloop = cloops[0]
-    ck, cv = (e.id if isinstance(e, ast.Name) else None for e in cloop.target.elts)
-    cdict = cloop.iter.func.value.id if isinstance(cloop.iter.func.value, ast.Name) else None
+    ctx.require(len(cloops) <= 1, f"{rid}: expected one loop over the edge attributes on the creating path, found {len(cloops)}")
+    cloop = cloops[0] if cloops else None          # None: the attributes must have been replicated in front of the branch (checked below)
+    ck, cv = ((e.id if isinstance(e, ast.Name) else None for e in cloop.target.elts) if cloop is not None else (None, None))
+    cdict = cloop.iter.func.value.id if cloop is not None and isinstance(cloop.iter.func.value, ast.Name) else None
 
     def classify_create(s):
         """[(kind, stmt, target, value)] for the stores of one statement (`a['source_idx'], a['target_idx'] = x, y` makes two)"""
@@ -779,7 +796,7 @@ def r3_group_edges(ctx, rid):
                 out.append(("src", s, tg, val))
             elif key == ("const", "target_idx"):
                 out.append(("tgt", s, tg, val))
-            elif key == ("name", ck) and within(cloop, s):
+            elif cloop is not None and key == ("name", ck) and within(cloop, s):
                 out.append(("attr", s, tg, val))
         return out
     create_label = "false" if positive else "true"
@@ -790,7 +807,7 @@ def r3_group_edges(ctx, rid):
     for p in create_paths:
         ev = [e for s in p if isinstance(s, ast.stmt) and inside(create_region, s) and id(s) not in shared for e in classify_create(s)]
         kinds = [e[0] for e in ev]
-        took_loop = any(isinstance(s, ast.stmt) and within(cloop, s) for s in p)
+        took_loop = cloop is not None and any(isinstance(s, ast.stmt) and within(cloop, s) for s in p)
         problem = None
         for k, nm in (("src", "source_idx"), ("tgt", "target_idx"), ("register", "the group")):
             if kinds.count(k) != 1 and problem is None:
@@ -820,10 +837,19 @@ def r3_group_edges(ctx, rid):
                 c_attr = e
             elif e[0] == "register":
                 c_reg = e
-    ctx.require(c_src is not None and c_tgt is not None and c_attr is not None and c_reg is not None, f"{rid}: creating path has an unrecognised form")
+    ctx.require(c_src is not None and c_tgt is not None and c_reg is not None, f"{rid}: creating path has an unrecognised form")
     # registration key == tested key, registered dict == the one initialised
     base_c, _, _ = sub_key(c_src[2])
     reg_st, reg_tg, reg_val = c_reg[1], c_reg[2], c_reg[3]
+    pre_c = None
+    if cloop is None:
+        pre_c = _prereplicated(ctx, f, reg_val)
+        if pre_c is None or not cfg.dominates(pre_c[0], t) or not in_body(outer, pre_c[0]):
+            raise AnalysisError(f"{rid}: no replication of the edge attributes found on the creating path (neither a loop over the attributes nor "
+                                f"a comprehension in front of the branch)")
+        cdict, cv = reg_val.id, pre_c[1]
+        c_attr = ("attr", pre_c[0], None, pre_c[2])
+    ctx.require(c_attr is not None, f"{rid}: creating path has an unrecognised form")
     if same_key(reg_tg.slice) and isinstance(reg_val, ast.Name) and reg_val.id == base_c == cdict:
         ctx.ok(rid, f, reg_st, "the new group is registered under the key the membership test uses", label="create: group identity")
     elif isinstance(reg_val, ast.Name) and (type(reg_tg.slice) is type(key_expr) and isinstance(key_expr, (ast.Name, ast.Tuple)) or same_key(reg_tg.slice)):
@@ -881,7 +907,25 @@ def _strip_copy(e):
             return e
 
 
-def _lockstep(ctx, rid, f, attr_ev, src_ev, vname, which):
+def _prereplicated(ctx, f, dict_name):
+    """The attribute dict named by `dict_name` was replicated as a whole before use: its single reaching definition is
+    `D = {k: [v] * count for k, v in <edge attrs>.items()}`.  Returns (statement, v name, `[v] * count` expression) or None."""
+    if not isinstance(dict_name, ast.Name):
+        return None
+    defs = ctx.rd(f).defs_reaching(dict_name)
+    if len(defs) != 1 or not isinstance(defs[0], ast.Assign):
+        return None
+    dc = assigned_value(defs[0], dict_name.id)
+    if not (isinstance(dc, ast.DictComp) and len(dc.generators) == 1 and not dc.generators[0].ifs):
+        return None
+    gen = dc.generators[0]
+    if not (isinstance(gen.iter, ast.Call) and call_name(gen.iter) == "items" and isinstance(gen.target, ast.Tuple) and len(gen.target.elts) == 2
+            and all(isinstance(x, ast.Name) for x in gen.target.elts) and isinstance(dc.key, ast.Name) and dc.key.id == gen.target.elts[0].id):
+        return None
+    return defs[0], gen.target.elts[1].id, dc.value
+
+
+def _lockstep(ctx, rid, f, attr_ev, src_ev, vname, which, pre=None):
     """attribute lists grow by [val] * L with L == len(<what source_idx grows by>)"""
     s_attr, a_arg = attr_ev[0], attr_ev[1][2]
     s_src, s_arg = src_ev[0], src_ev[1][2]
@@ -892,6 +936,13 @@ def _lockstep(ctx, rid, f, attr_ev, src_ev, vname, which):
             if isinstance(x, ast.List) and len(x.elts) == 1:
                 rep = (x.elts[0], y)
     label = f"{which}: lock-step lengths"
+    if rep is None and pre is not None and isinstance(a_val, ast.Name) and a_val.id == vname:
+        # the lists were built once, in front of the branch, for the whole attribute dict: the growth is that dict's value
+        _, vname, a_val = pre
+        if isinstance(a_val, ast.BinOp) and isinstance(a_val.op, ast.Mult):
+            for x, y in ((a_val.left, a_val.right), (a_val.right, a_val.left)):
+                if isinstance(x, ast.List) and len(x.elts) == 1:
+                    rep = (x.elts[0], y)
     if rep is None:
         raise AnalysisError(f"{rid}: the attribute growth `{norm(a_arg)}` is not of the recognised form [value] * count")
     elem, cnt = rep
@@ -1206,6 +1257,15 @@ def _identity_proof(ctx, fi, e, idx_name, length_name, depth=0):
         for x, y in ((e.args[0], e.args[1]), (e.args[1], e.args[0])):
             if _whole_list(x, idx_name) and _range_of(y, length_name):
                 return f"array_equal with arange({length_name})"
+    if isinstance(e, ast.UnaryOp) and isinstance(e.op, ast.Not) and isinstance(e.operand, ast.Call) and call_name(e.operand) == "any" \
+            and len(e.operand.args) == 1:
+        gen = e.operand.args[0]                      # not any(a != b for a, b in zip(idx, range(n)))
+        if isinstance(gen, ast.Call) and call_name(gen) in ("list", "tuple") and len(gen.args) == 1:
+            gen = gen.args[0]
+        if isinstance(gen, (ast.GeneratorExp, ast.ListComp)) and len(gen.generators) == 1 and not gen.generators[0].ifs \
+                and _mentions(gen.generators[0].iter, idx_name) and isinstance(gen.elt, ast.Compare) and len(gen.elt.ops) == 1 \
+                and isinstance(gen.elt.ops[0], ast.NotEq):
+            return "not any(element != position)"
     if isinstance(e, ast.Call) and call_name(e) == "all" and len(e.args) == 1:
         gen = e.args[0]
         if isinstance(gen, ast.Call) and call_name(gen) in ("list", "tuple") and len(gen.args) == 1:
@@ -1338,8 +1398,7 @@ def r6_indexing_dropped_only_for_identity(ctx, rid):
         facts = {"path_condition": [("" if pol else "not ") + norm(t) for t, pol in lits]}
         proof = None
         for t, pol in lits:
-            if pol:
-                proof = proof or _identity_proof(ctx, f, t, pi, pl)
+            proof = proof or _identity_proof(ctx, f, t if pol else ast.UnaryOp(op=ast.Not(), operand=t), pi, pl)
         if proof:
             ctx.ok(rid, f, r, f"indexing is dropped only after an element-wise identity proof ({proof})", facts, label=label)
             continue
@@ -1388,7 +1447,7 @@ def r7_merge_key_is_the_operator_graph(ctx, rid):
     from engine import AnalysisError as _AE
     from engine.util import call_name as _cn, single_def_value as _sdv
     from engine.srcmodel import walk_shallow as _ws, norm as _norm
-    f = ctx.repo.get_func("pyrates/ir/node.py", "cache_func")
+    f = inlined(ctx, ctx.repo.get_func("pyrates/ir/node.py", "cache_func"))       # new-node / label helpers spliced in
     stores = [st for st in _ws(f.node) if isinstance(st, _ast.Assign) and len(st.targets) == 1 and isinstance(st.targets[0], _ast.Subscript)
               and isinstance(st.targets[0].value, _ast.Name) and st.targets[0].value.id == "node_cache"]
     reads = [n for n in _ws(f.node) if isinstance(n, _ast.Subscript) and isinstance(n.ctx, _ast.Load) and isinstance(n.value, _ast.Name)
